@@ -3,7 +3,8 @@ D = {'QM_STR_CAP': 10, 'QM_LIST_CAP': 4, 'QM_HASH_CAP': 2, 'QM_EVQ_CAP': 4, 'VF_
 REC = {'_ZL9scheduleri': 6, '_ZL13producer_stepi': 6}
 UP = {'resetOwnThread': 6, 'h_conc': 8, 'check_deliveries': 8, 'scheduler': 4}
 JOBS = [
-    dict(name='async', src='../CONC/conc.cpp', fn='h_conc', defines=dict(D, VF_PROD=2, VF_MSGS=1, VF_ROUNDS=2, VF_DEPTH=2), unwind=14, unwindset=REC, unwind_patterns=UP, timeout=1800, mem=24, replay='model', checks='full'),
+    dict(name='async_1x2', src='../CONC/conc.cpp', fn='h_conc', defines=dict(D, VF_PROD=1, VF_MSGS=2, VF_ROUNDS=2, VF_DEPTH=1), unwind=14, unwindset=REC, unwind_patterns=UP, timeout=2400, mem=24, replay='model'),
+    dict(name='async', src='../CONC/conc.cpp', fn='h_conc', tiers=['thorough'], defines=dict(D, VF_PROD=2, VF_MSGS=1, VF_ROUNDS=2, VF_DEPTH=2), unwind=14, unwindset=REC, unwind_patterns=UP, timeout=1800, mem=24, replay='model', checks='full'),
     dict(name='async_2x2', src='../CONC/conc.cpp', fn='h_conc', defines=dict(D, VF_PROD=2, VF_MSGS=2, VF_ROUNDS=3, VF_DEPTH=2, QM_EVQ_CAP=5), unwind=14, unwindset=REC, unwind_patterns=UP, timeout=6000, mem=40, replay='model', checks='full', tiers=['thorough']),
 ]
 BOUNDS = {'quick': '2 producers x 1 message with the logger moved to its own thread; caller buffers (file, function) freed right after each call; worker event-loop steps interleaved at every yield point (depth 2, 2 rounds), then drained', 'thorough': '2 producers x 2 messages x 3 rounds'}
